@@ -5,6 +5,8 @@ export GOFLAGS=-mod=mod GOPROXY=off GOSUMDB=off GOTOOLCHAIN=local
 OUT="$1"; shift
 REPO="${VERIF_REPO:-/repo}"
 mkdir -p "$OUT"
-/verif/tools/bin/rewrite -repo "$REPO" -out "$OUT" -vrt /verif/vrt -harness /verif/harness >/dev/null
+# never let the go command touch /repo/go.mod or go.sum: work against private copies
+cp "$REPO/go.mod" "$OUT/go.mod"; cp "$REPO/go.sum" "$OUT/go.sum"
+/verif/tools/bin/rewrite -repo "$REPO" -out "$OUT" -modfile "$OUT/go.mod" -vrt /verif/vrt -harness /verif/harness >/dev/null
 cd "$REPO"
-go build -tags verif -overlay "$OUT/overlay.json" -o "$OUT/check.bin" ./internal/verif/cmd/check
+go build -modfile="$OUT/go.mod" -tags verif -overlay "$OUT/overlay.json" -o "$OUT/check.bin" ./internal/verif/cmd/check
